@@ -67,9 +67,18 @@ func checkE[E cmp.Ordered](c Case, d script.Domain[E]) (pbt.Info, error) {
 	kind := c.Cfg.Kind
 	h := all.New[E](c.Cfg)
 	m := script.NewModel[E](c.Cfg)
-	for _, op := range c.Ops {
+	for i, op := range c.Ops {
 		script.Apply(h, d, op)
 		m.Apply(d, op)
+		// earlier snapshots: "ToJSON() returns ... every reachable state" includes states
+		// reached after the container has already been serialised (through any of the
+		// three entry points), e.g. by a Put that only replaces a value
+		switch (i + len(c.Ops)) % 4 {
+		case 0:
+			_, _ = h.ToJSON()
+		case 1:
+			_, _ = json.Marshal(h.AsJSON)
+		}
 	}
 	before := h.Observe()
 
